@@ -1,6 +1,7 @@
 #include <AIToolbox/Tools/CassandraParser.hpp>
 
 #include <numeric>
+#include <limits>
 #include <istream>
 #include <algorithm>
 
@@ -8,6 +9,16 @@
 #include <boost/algorithm/string.hpp>
 
 namespace AIToolbox {
+    namespace {
+        // The tables are dense: refuse sizes whose d1*d2*d3 doubles cannot be
+        // addressed, rather than letting the product wrap around in resize().
+        void checkExtent(const size_t d1, const size_t d2, const size_t d3) {
+            constexpr size_t maxElements = std::numeric_limits<size_t>::max() / sizeof(double);
+            if (d1 > maxElements / d2 || d1 * d2 > maxElements / d3)
+                throw std::runtime_error("Model definition is too large");
+        }
+    }
+
     CassandraParser::CassandraParser() {
         // Assign an action to parse each value for the preambles. Lines parsed
         // in the preamble are parsed before the others.
@@ -38,6 +49,7 @@ namespace AIToolbox {
 
         if (!S || !A)
             throw std::runtime_error("MDP definition is incomplete");
+        checkExtent(S, A, S);
 
         // Init matrices to store data.
         T.resize(boost::extents[S][A][S]);
@@ -73,6 +85,8 @@ namespace AIToolbox {
 
         if (!S || !A || !O)
             throw std::runtime_error("POMDP definition is incomplete");
+        checkExtent(S, A, S);
+        checkExtent(S, A, O);
 
         // Init matrices to store data.
         T.resize(boost::extents[S][A][S]);
